@@ -370,13 +370,10 @@ theorem add_never_nil_deref (c0 : List Blk) (s : PState) (hr : Reachable c0 s) (
         -- canRollback returned an error: it is never nilDeref
         unfold canRollback at he
         rw [hv] at he
-        split at he
-        · cases he; simp
-        · split at he
-          · cases he; simp
-          · split at he
-            · cases he; simp
-            · cases he
+        repeat' split at he
+        all_goals first
+          | (cases he; simp; done)
+          | (cases he)
       · rename_i hcr
         split
         · -- trueBlock = none although canRollback passed: impossible
@@ -384,38 +381,43 @@ theorem add_never_nil_deref (c0 : List Blk) (s : PState) (hr : Reachable c0 s) (
           exfalso
           unfold canRollback at hcr
           rw [hv] at hcr
+          have habove0 : view.length < b.height := by
+            apply Classical.byContradiction
+            intro hle
+            have := byHeight_isSome view hchain hho b.height (by omega) (by omega)
+            rw [htb] at this; cases this
           split at hcr
           · cases hcr
           · split at hcr
-            · cases hcr
-            · rename_i tp htp
-              split at hcr
+            · -- first block of the account: the view would be empty, so this was a fast-forward
+              rename_i h1z
+              have hnil : view = [] := List.eq_nil_of_length_eq_zero (by omega)
+              exact hne (by rw [hfid, hnil, h1z.2]; rfl)
+            · split at hcr
               · cases hcr
-              · rename_i hid
-                have hid : tp.id = b.prev := by simpa using hid
-                obtain ⟨htm, hth⟩ := byHeight_some htp
-                -- no block at b.height: b.height is above the view
-                have habove : view.length < b.height := by
-                  apply Classical.byContradiction
-                  intro hle
-                  have := byHeight_isSome view hchain hho b.height (by omega) (by omega)
-                  rw [htb] at this; cases this
-                obtain ⟨i, hi', rfl⟩ := List.getElem_of_mem htm
-                have hhi := linked_heights view zeroId hchain hho i hi'
-                simp only [zeroId, Blk.prev, hb, if_false] at hhi hth
-                have htop : view[i].height = view.length := by omega
-                have := top_block_id view hchain hho view[i] htm htop
-                exact hne (by rw [hfid, ← this, hid])
+              · rename_i tp htp
+                split at hcr
+                · cases hcr
+                · rename_i hid
+                  have hid : tp.id = b.prev := by simpa using hid
+                  obtain ⟨htm, hth⟩ := byHeight_some htp
+                  have habove := habove0
+                  obtain ⟨i, hi', rfl⟩ := List.getElem_of_mem htm
+                  have hhi := linked_heights view zeroId hchain hho i hi'
+                  simp only [zeroId, Blk.prev, hb, if_false] at hhi hth
+                  have htop : view[i].height = view.length := by omega
+                  have := top_block_id view hchain hho view[i] htm htop
+                  exact hne (by rw [hfid, ← this, hid])
         · repeat' split
           all_goals simp
 
-/-- T3 at the level of the pool: a well-formed competitor `b` (height ≥ 2, same Previous() as the pooled block `tb` it
-    competes with, another hash) is decided by `higherPriority b tb` alone — it replaces `tb` (and everything pooled
-    above it) iff it is forced or the rule lets it win; otherwise the pool is unchanged and the rule's error is
-    returned. With `winner_order_independent` this makes the block held at a height ≥ 2 independent of the arrival order
-    of its competitors. (Height 1 is different: `first_block_competitor_refused`.) -/
+/-- T3 at the level of the pool, for EVERY height (the first block of an account included): a well-formed competitor
+    `b` (same Previous() as the pooled block `tb` it competes with, another hash) is decided by `higherPriority b tb`
+    alone — it replaces `tb` (and everything pooled above it) iff it is forced or the rule lets it win; otherwise the
+    pool is unchanged and the rule's error is returned. With `winner_order_independent` this makes the block held at a
+    height independent of the arrival order of its competitors. -/
 theorem competitor_decided_by_rule (c0 : List Blk) (s : PState) (hr : Reachable c0 s) (b tb : Blk) (f : Bool)
-    (h2 : 2 ≤ b.height) (habove : (lastId s.confirmed).2 < b.height)
+    (hb0 : b.height ≠ 0) (habove : (lastId s.confirmed).2 < b.height)
     (htb : byHeight (s.manager.base ++ s.manager.pooled) b.height = some tb)
     (hne : tb.hash ≠ b.hash) (hprev : b.prev = tb.prev) :
     addBlock s b f =
@@ -441,7 +443,6 @@ theorem competitor_decided_by_rule (c0 : List Blk) (s : PState) (hr : Reachable 
   simp only [zeroId] at hhi
   have hidx : i = b.height - 1 := by omega
   subst hidx
-  have hb0 : b.height ≠ 0 := by omega
   have hpv : b.prev.2 = b.height - 1 := by simp [Blk.prev, hb0]
   -- not a fast-forward, not already there
   have hnff : ¬ b.prev = s.manager.frontierId := by
@@ -454,27 +455,47 @@ theorem competitor_decided_by_rule (c0 : List Blk) (s : PState) (hr : Reachable 
       have := Option.some.inj he
       exact congrArg Prod.fst this
     exact hne this
-  -- canRollback passes: the block below is the claimed previous
-  have hbelow : byHeight view (b.height - 1) = some (view[b.height - 2]'(by omega)) := by
-    have := byHeight_chain view hview hvh (b.height - 2) (by omega)
-    have e : b.height - 2 + 1 = b.height - 1 := by omega
-    rw [e] at this; exact this
-  have hlink : (view[b.height - 2]'(by omega)).id = b.prev := by
-    have := linked_getElem_prev view zeroId hview (b.height - 2) (by omega)
-    have e : b.height - 2 + 1 = b.height - 1 := by omega
-    simp only [e] at this
-    rw [hprev, this]
+  -- the claimed previous is the identifier the view has below b (the zero identifier for a first block)
+  have hbp : b.prev = lastId (view.take (b.height - 1)) := by
+    by_cases h1 : b.height = 1
+    · have h0 : b.height - 1 = 0 := by omega
+      rw [hprev]
+      simp only [h0, List.take_zero]
+      cases view with
+      | nil => simp at hi'
+      | cons x xs =>
+        exact hview.1
+    · have := linked_getElem_prev view zeroId hview (b.height - 2) (by omega)
+      have e : b.height - 2 + 1 = b.height - 1 := by omega
+      simp only [e] at this
+      rw [hprev, this]
+      have h2 := lastId_take view (b.height - 1) (by omega) (by omega)
+      have e2 : b.height - 1 - 1 = b.height - 2 := by omega
+      simp only [e2] at h2
+      rw [h2]
+  -- canRollback passes
   have hcr : canRollback s s.manager b = none := by
     unfold canRollback
-    have : ¬ (lastId s.confirmed).2 ≥ b.height := by omega
-    simp only [this, if_false, hv, hpv, hbelow, hlink, ne_eq, not_true_eq_false]
+    have hns : ¬ (lastId s.confirmed).2 ≥ b.height := by omega
+    simp only [hns, if_false, hv]
+    by_cases h1 : b.height = 1
+    · have h0 : b.height - 1 = 0 := by omega
+      have : b.prev = zeroId := by rw [hbp, h0]; rfl
+      simp [h1, this]
+    · have hn1 : ¬ (b.height = 1 ∧ b.prev = zeroId) := fun h => h1 h.1
+      have hbelow : byHeight view (b.height - 1) = some (view[b.height - 2]'(by omega)) := by
+        have := byHeight_chain view hview hvh (b.height - 2) (by omega)
+        have e : b.height - 2 + 1 = b.height - 1 := by omega
+        rw [e] at this; exact this
+      have hlink : (view[b.height - 2]'(by omega)).id = b.prev := by
+        have h2 := lastId_take view (b.height - 1) (by omega) (by omega)
+        have e2 : b.height - 1 - 1 = b.height - 2 := by omega
+        simp only [e2] at h2
+        rw [hbp, h2]
+      simp only [hn1, if_false, hpv, hbelow, hlink, ne_eq, not_true_eq_false]
   -- the rollback target is the pooled chain cut below b
   have htarget : b.prev = lastIdFrom (lastId s.confirmed) (s.manager.pooled.take (b.height - 1 - (lastId s.confirmed).2)) := by
-    rw [← hlink]
-    have := lastId_take view (b.height - 1) (by omega) (by omega)
-    have e : b.height - 1 - 1 = b.height - 2 := by omega
-    simp only [e] at this
-    rw [← this, ← hv, List.take_append, hb, hconf, List.take_of_length_le (by omega), lastId_append]
+    rw [hbp, ← hv, List.take_append, hb, hconf, List.take_of_length_le (by omega), lastId_append]
   have hroll := rollbackTo_reaches (conf := s.confirmed) (s.manager.pooled.length + 1) s.manager
     (b.height - 1 - (lastId s.confirmed).2) ⟨hb, hl, hh⟩ (by rw [hconf]; omega) (by omega)
   rw [← htarget] at hroll
@@ -488,27 +509,27 @@ theorem competitor_decided_by_rule (c0 : List Blk) (s : PState) (hr : Reachable 
   simp only [hnff, if_false, hv, htb, Option.map_some, hnal, hcr, hroll, hadd]
   cases f <;> cases hp : higherPriority b (view[b.height - 1]) <;> simp
 
-/-- T4 `rebuild_spec` (one address, rebuild not skipped): after a momentum that extends the confirmed chain by `nb`, the
-    pool holds exactly the previously pooled blocks above the new confirmed height if they (still) link to the new
-    confirmed frontier, and nothing otherwise; the confirmed chain is the extended one; `rebuild` never meets a missing
-    height (no nil dereference). -/
+/-- T4 `rebuild_spec`: after a momentum that extends the confirmed chain by `nb`, the pool of an address holds exactly
+    the previously pooled blocks above the new confirmed height if they (still) link to the new confirmed frontier, and
+    nothing otherwise; the confirmed chain is the extended one; `rebuild` never meets a missing height (no nil
+    dereference). Every address is rebuilt independently of the others (`rebuild_no_early_return`). -/
 theorem rebuild_spec (c0 : List Blk) (s : PState) (hr : Reachable c0 s) (nb : List Blk) (hop : OpOK s (.insert nb)) :
-    (insertMomentum s nb false).1.confirmed = s.confirmed ++ nb ∧
-    (insertMomentum s nb false).1.manager.pooled =
+    (insertMomentum s nb).1.confirmed = s.confirmed ++ nb ∧
+    (insertMomentum s nb).1.manager.pooled =
       (if Linked (lastId (s.confirmed ++ nb)) (s.manager.pooled.drop nb.length)
        then s.manager.pooled.drop nb.length else []) ∧
-    (insertMomentum s nb false).2 ≠ .nilDeref := by
+    (insertMomentum s nb).2 ≠ .nilDeref := by
   have hi := reachable_inv hr
+  have hnocs := reachable_nocs hr
   have hc : Linked zeroId (s.confirmed ++ nb) := (linked_append nb s.confirmed zeroId).mpr ⟨hi.1, hop.1⟩
   have hhc : HeightsOK (s.confirmed ++ nb) := heightsOK_append.mpr ⟨hi.2.1, hop.2⟩
   cases hm : s.mgr with
   | none =>
-    have hp : s.manager.pooled = [] := by simp [PState.manager, hm]
     simp [insertMomentum, hm, PState.manager, Linked]
   | some old =>
     obtain ⟨hb, hl, hh⟩ := hi.2.2 old hm
     have hp : s.manager = old := by simp [PState.manager, hm]
-    rw [hp]
+    rw [hp] at hnocs ⊢
     -- the old frontier view is a chain, so reading heights gives slices
     have hview : Linked zeroId (old.base ++ old.pooled) := by
       rw [hb, linked_append]; exact ⟨hi.1, by rw [← lastId_eq]; exact hl⟩
@@ -530,6 +551,12 @@ theorem rebuild_spec (c0 : List Blk) (s : PState) (hr : Reachable c0 s) (nb : Li
         have e2 : List.drop (old.base.length + nb.length) old.base = [] := List.drop_eq_nil_of_le (by omega)
         have e3 : old.base.length + nb.length - old.base.length = nb.length := by omega
         rw [e2, e3, List.nil_append, List.take_of_length_le (by simp only [List.length_drop]; omega)]
+    -- no pooled block is a ContractSend, so the filter of `rebuild` keeps the slice as it is
+    have hfilter : (old.pooled.drop nb.length).filter (fun b => !isContractSend b.btype) = old.pooled.drop nb.length := by
+      rw [List.filter_eq_self]
+      intro x hx
+      have := hnocs x (List.mem_of_mem_drop hx)
+      simp [this]
     -- the slice is internally linked
     have hinner : Linked (lastIdFrom (lastId s.confirmed) (old.pooled.take nb.length)) (old.pooled.drop nb.length) := by
       have := hl
@@ -538,11 +565,12 @@ theorem rebuild_spec (c0 : List Blk) (s : PState) (hr : Reachable c0 s) (nb : Li
     refine ⟨?_, ?_, ?_⟩
     · simp only [insertMomentum, hm]; repeat' split
       all_goals rfl
-    · simp only [insertMomentum, hm, Bool.false_eq_true, if_false, hunc]
-      generalize old.pooled.drop nb.length = rest at hinner ⊢
+    · simp only [insertMomentum, hm, hunc]
+      generalize old.pooled.drop nb.length = rest at hinner hfilter ⊢
       cases rest with
       | nil => simp [PState.manager, Linked]
       | cons b bs =>
+        simp only [hfilter]
         by_cases hlk : Linked (lastId (s.confirmed ++ nb)) (b :: bs)
         · have := addAll_linked (b :: bs) ⟨s.confirmed ++ nb, []⟩ (by simpa [Mgr.frontierId] using hlk)
           simp [this, hlk, PState.manager]
@@ -550,36 +578,14 @@ theorem rebuild_spec (c0 : List Blk) (s : PState) (hr : Reachable c0 s) (nb : Li
             intro he
             exact hlk ⟨by simpa [Mgr.frontierId] using he, hinner.2⟩
           simp [addAll_unlinked b bs _ hne, hlk, PState.manager]
-    · simp only [insertMomentum, hm, Bool.false_eq_true, if_false, hunc]
+    · simp only [insertMomentum, hm, hunc]
       repeat' split
       all_goals simp_all
 
-/-- negative witness (finding F15): a competitor for an account's FIRST block is refused whatever its priority —
-    `canRollback` asks the frontier store for the block at height 0, which never exists. On an empty account the pooled
-    block `a` (ratio 1) is kept against `b` (ratio 2, same previous = zero identifier) although `higherPriority b a`
-    succeeds; in the other arrival order `b` is kept: at height 1 the winner is the first arrival, not the rule's. -/
-theorem first_block_competitor_refused :
-    ∃ (a b : Blk), a.prev = zeroId ∧ b.prev = zeroId ∧ a.height = 1 ∧ b.height = 1 ∧ higherPriority b a = .ok ∧
-      (addBlock (step ⟨[], none⟩ (.add a false)) b false).2 = .missingPrevious ∧
-      (step (step ⟨[], none⟩ (.add a false)) (.add b false)).manager.pooled = [a] ∧
-      (step (step ⟨[], none⟩ (.add b false)) (.add a false)).manager.pooled = [b] :=
-  ⟨{ height := 1, hash := [1], prevHash := zeroHash, total := 21000, base := 21000 },
-   { height := 1, hash := [2], prevHash := zeroHash, total := 42000, base := 21000 }, by decide⟩
-
-/-- negative witness for candidate F12 (`rebuild` returns at the first address whose blocks do not re-apply, later
-    addresses keep the manager built on the OLD stable database): if the rebuild of this address is skipped while a
-    momentum confirms a competing block, the pooled block no longer extends the confirmed chain and the frontier store
-    shows the pooled block instead of the confirmed one — T1 and T2 hold only when every address is rebuilt. -/
-theorem skipped_rebuild_breaks_single_chain :
-    ∃ (s : PState) (nb : List Blk), Reachable [] s ∧ OpOK s (.insert nb) ∧
-      let s' := (insertMomentum s nb true).1
-      ¬ Linked (lastId s'.confirmed) s'.manager.pooled ∧
-      byHeight (s'.manager.base ++ s'.manager.pooled) 1 ≠ byHeight s'.confirmed 1 := by
-  refine ⟨step ⟨[], none⟩ (.add { height := 1, hash := [1], prevHash := zeroHash } false),
-    [{ height := 1, hash := [2], prevHash := zeroHash }], ?_, ?_, ?_⟩
-  · exact Reachable.step _ (Reachable.init trivial (fun _ h => by simp at h)) (by simp [OpOK])
-  · decide
-  · decide
+/-- the address loop of `rebuild` contains no `return` (regenerated from the AST of chain/account_pool.go): a failure
+    to re-apply the blocks of one address cannot leave other addresses on managers built on the old stable database,
+    which is what makes the per-address statements above statements about the whole pool -/
+theorem rebuild_no_early_return : Gen.rebuildLoopReturns = 0 := by decide
 
 /-! ### P — lock discipline (the logical part of the concurrency clause; data-race freedom itself is not a theorem) -/
 
@@ -602,7 +608,15 @@ theorem pool_lock_sites_cover : ∀ n ∈ ["AddAccountBlockTransaction", "ForceA
 example : ∃ s, Reachable [] s ∧ s.manager.pooled.length = 2 :=
   ⟨step (step ⟨[], none⟩ (.add { height := 1, hash := [1], prevHash := zeroHash } false))
       (.add { height := 2, hash := [2], prevHash := [1] } false),
-   Reachable.step _ (Reachable.step _ (Reachable.init trivial (fun _ h => by simp at h)) (by simp [OpOK]))
-     (by simp [OpOK]), by decide⟩
+   Reachable.step _ (Reachable.step _ (Reachable.init trivial (fun _ h => by simp at h)) (by decide))
+     (by decide), by decide⟩
+
+/-- the first block of an account is decided like any other height: whichever of two competitors (ratio 1 vs ratio 2)
+    arrives first, the one with the higher ratio is held -/
+example :
+    let a : Blk := { height := 1, hash := [1], prevHash := zeroHash, total := 21000, base := 21000 }
+    let b : Blk := { height := 1, hash := [2], prevHash := zeroHash, total := 42000, base := 21000 }
+    (step (step ⟨[], none⟩ (.add a false)) (.add b false)).manager.pooled = [b] ∧
+    (step (step ⟨[], none⟩ (.add b false)) (.add a false)).manager.pooled = [b] := by decide
 
 end ZV.C14
